@@ -1,6 +1,7 @@
 package client
 
 import (
+	"bytes"
 	"context"
 	"crypto/subtle"
 	"log/slog"
@@ -100,7 +101,8 @@ func compareIPs(x, y []byte) int {
 	addrX, okX := netip.AddrFromSlice(x)
 	addrY, okY := netip.AddrFromSlice(y)
 	if !okX || !okY {
-		panic("unexpected IP address byte slice")
+		// not an IP address (e.g. a service address in a received packet): never equal to an IP address
+		return bytes.Compare(x, y) | 1
 	}
 	return addrX.Unmap().Compare(addrY.Unmap())
 }
